@@ -445,6 +445,42 @@ def r7_encryption_key_lookup(run):
     run.floor("R7", "encryption certificate lookups", n, 2)
 
 
+def r8_key_is_this_recipients(run):
+    run.rule("R8", "the certificate an assertion is encrypted for derives, on "
+             "every call, from that call's own inputs: the certificate passed "
+             "in for this request or the metadata lookup for this recipient - "
+             "never from state kept on the entity between requests")
+    m = run.model
+    fi = m.func("entity.Entity._encrypt_assertion")
+    cfg = cfg_of(fi, m)
+    org = Origins(cfg, transparent={"make_temp": (0,), "encode": "recv"})
+    calls = [(nd, c) for nd, c in cfg.call_nodes("encrypt_assertion")
+             if attr_chain(c.func) == "self.sec.encrypt_assertion"]
+    run.floor("R8", "encrypt_assertion call sites in _encrypt_assertion",
+              len(calls), 1)
+    for nd, c in calls:
+        a = arg_of(c, 1, "enc_key")
+        got = org.of(a, nd.id) if a is not None else set()
+        bad = sorted(repr(x) for x in got if not (
+            x.kind == "const" or
+            (x.kind == "param" and x.text == "encrypt_cert") or
+            (x.kind == "call" and x.text == "self.metadata.certs")))
+        run.check(bool(got) and not bad, "R8",
+                  fi.qual + "::enc_key-origins",
+                  "the key file is written from encrypt_cert or "
+                  "metadata.certs(sp_entity_id, ..., 'encryption')",
+                  "the key the assertion is encrypted for may derive from %s: "
+                  "a value that outlives the request can be the key of "
+                  "another request or recipient" % bad, fi.loc(c))
+    for c in calls_named(fi.node, "certs"):
+        a = arg_of(c, 0, "entity_id")
+        run.check(a is not None and unparse(a) == "sp_entity_id", "R8",
+                  fi.qual + "::certs-of-recipient",
+                  "looked up for the recipient of this response",
+                  "certificates are looked up for %s" %
+                  (unparse(a) if a is not None else None), fi.loc(c))
+
+
 def check(run):
     run.explanation = (
         "C17: statement-order rule sign-assertion < encrypt < sign-response in "
@@ -464,3 +500,4 @@ def check(run):
     r5_parity(run)
     r6_undecryptable(run)
     r7_encryption_key_lookup(run)
+    r8_key_is_this_recipients(run)
